@@ -71,6 +71,22 @@ def run(ctx):
         c = mkcase('T%d' % i, lib.new_cfg(style='text', select=sel, text_opts=t or None, rowsep=rnd.choice([None, '\n', ';\n'])), data); cases.append(c); meta[c['id']] = ('text', recs, cols, sel, t)
     impl, model, mism = common.correspond(cases)
     violations = []; checked = 0
+    # long fields with line breaks through a writer that takes a few bytes per call: the row must arrive whole
+    lcases = []
+    for i in range(6 if ctx['tier'] == 'quick' else 60):
+        long = {'a': 'first line\n' + 'x' * rnd.choice([1500, 5000, 70000]) + '\nlast "q", end', 'b': [1, 'two\nlines ' + 'y' * 2000], 'c': rnd.choice(STRS)}
+        data = gen.jdump(long) + b'\n' + gen.jdump({'a': 'short', 'b': 2}) + b'\n'
+        for style in ('csv', 'text'):
+            cfgl = lib.new_cfg(style=style, select=['.a', '.b', '.c'])
+            w = mkcase('LW%d%s' % (i, style), cfgl, data); p = mkcase('LP%d%s' % (i, style), cfgl, data); p['out_chunk'] = rnd.choice([1, 13, 1024, 4096])
+            lcases += [w, p]
+    limpl = lib.run_harness(lcases)
+    for k in range(0, len(lcases), 2):
+        w, p = limpl[lcases[k]['id']], limpl[lcases[k + 1]['id']]; checked += 1
+        if (w['result'], w['stdout']) != (p['result'], p['stdout']):
+            v = viol(lcases[k + 1], 'a long field reaches a writer that accepts %d bytes per call whole (same bytes as through a writer that takes everything)' % lcases[k + 1]['out_chunk'],
+                     '%s %d bytes' % (p['result'], len(p['stdout'])), '%s %d bytes' % (w['result'], len(w['stdout'])))
+            v['out_chunk'] = lcases[k + 1]['out_chunk']; violations.append(v)
     for c in cases:
         a = impl[c['id']]; m = meta[c['id']]
         if a['result'] != 'ok':
@@ -150,5 +166,9 @@ def viol(c, rel, obs, exp):
 
 def replay(ctx, r):
     c = {'id': 'r', 'cfg': lib.new_cfg(), 'args': r['args'], 'inputs': [{'data': bytes.fromhex(r['stdin_hex'])}]}
+    if r.get('out_chunk'):
+        c['out_chunk'] = r['out_chunk']; w = {'id': 'w', 'cfg': lib.new_cfg(), 'args': r['args'], 'inputs': [{'data': bytes.fromhex(r['stdin_hex'])}]}
+        res = lib.run_harness([c, w])
+        return {'observed': len(res['r']['stdout']), 'expected': len(res['w']['stdout']), 'fails': res['r']['stdout'] != res['w']['stdout']}
     a = lib.run_harness([c])['r']
     return {'observed': a['stdout'].decode('utf8', 'replace')[:500], 'expected': r.get('expected'), 'fails': True}
